@@ -7,8 +7,10 @@ pub const CONTEXTS: [&str; 19] = [
     "when", "unless", "apply", "apply-apply", "apply-renamed", "apply-prefixed",
 ];
 pub const SHAPES: [&str; 6] = ["self", "mutual-2", "mutual-3", "through-parameter", "variadic", "closure-returned"];
-pub const SHAPES_ALL: [&str; 9] =
-    ["self", "mutual-2", "mutual-3", "through-parameter", "variadic", "closure-returned", "internal-definition", "fresh-closure-per-iteration", "apply-as-parameter"];
+pub const SHAPES_ALL: [&str; 13] = [
+    "self", "mutual-2", "mutual-3", "through-parameter", "variadic", "closure-returned", "internal-definition", "fresh-closure-per-iteration", "apply-as-parameter",
+    "body-with-internal-variable", "body-with-internal-procedure", "through-forwarder", "forwarder-cycle",
+];
 
 /// put `x` (an expression in tail position) into the tail position of the given context
 pub fn wrap(ctx: &str, x: &str) -> String {
@@ -94,6 +96,32 @@ pub fn program(shape: &str, ctxs: &[&str], n: u32) -> Vec<String> {
             // (op op loop (list op a (list b))) with op = apply is (loop apply a b): a tail call all the way
             forms.push(format!("(define (loop op i acc) (probe i) (if (= i 0) acc {}))", w("(op op loop (list op (- i 1) (list (step acc i))))")));
             forms.push(format!("(loop apply {} 1)", n));
+        }
+        "body-with-internal-variable" => {
+            // the looping procedure itself has internal definitions before its tail call
+            forms.push(format!("(define (loop i acc) (define next (- i 1)) (define s (step acc i)) (probe i) (if (= i 0) acc {}))", w("(loop next s)")));
+            forms.push(format!("(loop {} 1)", n));
+        }
+        "body-with-internal-procedure" => {
+            // ... one of them a procedure (a closure over the frame that also holds it)
+            forms.push(format!(
+                "(define (loop i acc) (define next (- i 1)) (define (bump a) (step a i)) (probe i) (if (= i 0) acc {}))",
+                w("(loop next (bump acc))")
+            ));
+            forms.push(format!("(loop {} 1)", n));
+        }
+        "through-forwarder" => {
+            // the tail call goes through a procedure whose whole body is (apply f args)
+            forms.push("(define (forward f . args) (apply f args))".to_string());
+            forms.push(format!("(define (loop i acc) (probe i) (if (= i 0) acc {}))", w("(forward loop (- i 1) (step acc i))")));
+            forms.push(format!("(loop {} 1)", n));
+        }
+        "forwarder-cycle" => {
+            // three procedures on the cycle, two of them one-call bodies (a builtin applied to variables only)
+            forms.push("(define (dispatch f a b) (apply f a b))".to_string());
+            forms.push("(define (again i acc) (loop i acc))".to_string());
+            forms.push(format!("(define (loop i acc) (probe i) (if (= i 0) acc {}))", w("(dispatch again (- i 1) (list (step acc i)))")));
+            forms.push(format!("(loop {} 1)", n));
         }
         "internal-definition" => {
             forms.push(format!("(define (run n) (define (iter i acc) (probe i) (if (= i 0) acc {})) (iter n 1))", w("(iter (- i 1) (step acc i))")));
@@ -186,7 +214,9 @@ pub fn judge(shape: &str, ctxs: &[&str], n: u32) -> Report {
             );
         }
         if heap_growth > (n as isize) / 2 {
-            rep.fail(format!("heap-grows:{}", tag), format!("live heap grew by {} bytes over the last {} iterations", heap_growth, n / 2));
+            // one signature for the frame <-> internal-closure cycle, whatever the tail context
+            let sig = if shape == "body-with-internal-procedure" { "heap-grows:frame-holds-its-own-internal-procedure".to_string() } else { format!("heap-grows:{}", tag) };
+            rep.fail(sig, format!("live heap grew by {} bytes over the last {} iterations", heap_growth, n / 2));
         }
     }
     rep
@@ -195,7 +225,9 @@ pub fn judge(shape: &str, ctxs: &[&str], n: u32) -> Report {
 pub fn run(ctx: &Ctx) {
     ctx.set_rule(
         "loop programs = loop shape (self, 2-/3-way mutual, through a procedure parameter, variadic with re-spread rest \
-         argument, closure-returned, internal definition, a fresh closure per iteration, apply arriving as a parameter and handed to itself) x composition of tail contexts (19: body-last, if-then, if-else, \
+         argument, closure-returned, internal definition, a fresh closure per iteration, apply arriving as a parameter and handed to itself, a looping body with internal \
+         variable definitions / with an internal procedure definition, the tail call forwarded by (define (forward f . args) (apply f args)), a three-procedure cycle through \
+         one-call bodies) x composition of tail contexts (19: body-last, if-then, if-else, \
          begin, let, let*, cond clause/else/=>, case clause/else, and, or, when, unless, apply, apply handed to apply, \
          apply imported under another name / with a prefix) x N; the loop calls (probe i) \
          once per iteration, which records the real machine stack address and the thread's live heap bytes. Quick: every \
@@ -227,7 +259,7 @@ pub fn run(ctx: &Ctx) {
         Some(judge(s, &[a, b], big))
     });
     // sampled: depth-2 on the other shapes (quick), depth-3 (thorough)
-    let cases = ctx.tier.pick(150, 3000);
+    let cases = ctx.tier.pick(400, 3000);
     ctx.random("sampled-compositions", cases, 8, |ch| {
         let depth = 2 + ch.below(2);
         let cs: Vec<&str> = (0..depth).map(|_| *ch.pick(&CONTEXTS)).collect();
